@@ -62,7 +62,8 @@ def _expand(payload, sub):
         t['name'] = 'res_%d' % (j + 1)
     stats = {}
     sc = PL.gen_pipeline(rng, tables, payload['nsteps'], exclude=[k for k in ST.GENS if k not in STREAM_KINDS], stats=stats)
-    return {'sources': srcs, 'steps': sc['steps'], 'N': payload['N'], 'sample_size': payload['sample_size'], 'gen_stats': stats}
+    return {'sources': srcs, 'steps': sc['steps'], 'N': payload['N'], 'sample_size': payload['sample_size'], 'gen_stats': stats,
+            'head': payload.get('head'), 'bad_row': payload.get('bad_row')}
 
 
 def _run(payload, sub):
@@ -76,6 +77,8 @@ def _run(payload, sub):
     pulled = [0] * nsrc
     state = {'maxL': 0, 'at': None, 'delivered': 0, 'early': 0, 'early_at': None, 'last_done': -1}
     sample = sc.get('sample_size') or 100
+    bad_row = sc.get('bad_row')
+    head = sc.get('head')
 
     def gen(j, spec):
         cols = [tuple(c) for c in spec['cols']]
@@ -83,7 +86,10 @@ def _run(payload, sub):
         nc = spec.get('null_col')
         for i in range(N):
             pulled[j] += 1
-            yield row_of(cols, nc, base, i)
+            row = row_of(cols, nc, base, i)
+            if bad_row is not None and j == 0 and i == bad_row:
+                row['_id'] = 'not-an-integer'
+            yield row
 
     links = []
     env = {'calls': {}}
@@ -119,8 +125,42 @@ def _run(payload, sub):
                         state['early_at'] = [rid, list(pulled)]
                 state['delivered'] += 1
             yield row
+    if bad_row is not None:
+        links.append(DF.validate())
+    if head:
+        nres = {'n': -1}
+
+        def head_step(rows):
+            nres['n'] += 1
+            it = iter(rows)
+            last = rows.res.name == state['last_name']
+            if not last:
+                yield from it
+                return
+            for k, row in enumerate(it):
+                if k >= head:
+                    break
+                yield row
+            state['stopped_at'] = sum(pulled)
+        links.append(head_step)
     links.append(sink)
-    DF.Flow(*links).process()
+    flow = DF.Flow(*links)
+    failed = None
+    try:
+        if head:
+            ds = flow.datastream()
+            state['last_name'] = ds.dp.resources[-1].name
+            import collections
+            for r in ds.res_iter:
+                collections.deque(r, maxlen=0)
+        else:
+            flow.process()
+    except Exception as e:  # noqa
+        if bad_row is None:
+            raise
+        failed = type(getattr(e, 'cause', e)).__name__
+    state['failed'] = failed
+    state['pulled_end'] = sum(pulled)
     sub.count('rows_pulled', sum(pulled))
     sub.count('rows_delivered', state['delivered'])
     return dict(state, pulled=list(pulled))
@@ -140,7 +180,7 @@ class C06(Prop):
                    'look-ahead is only defined at deliveries: a pipeline whose filter drops every row cannot refute the property']
     REAL_VS_STUB = {'real': ['all dataflows code of the pipeline, tabulator/tableschema iteration'], 'stub': ['counting generator sources', 'recording rows-function sink']}
     PROBES = ['unpivot-in-pipeline', 'concatenate-in-pipeline', 'dumper-in-pipeline', 'checkpoint-in-pipeline', 'filter-in-pipeline', 'null-column-source', 'load-tuple-source',
-              'multi-source', 'sample-size-knob', 'N=100000']
+              'multi-source', 'sample-size-knob', 'N=100000', 'consumer-stops-early', 'run-fails-mid-stream']
     TIERS = {'quick': dict(runs=400, wall=110, run_wall=200),
              'thorough': dict(runs=6000, wall=1700, run_wall=900)}
     SHRINK_FROZEN = ('cols', 'gen_stats')
@@ -150,8 +190,14 @@ class C06(Prop):
         if tier == 'thorough' and rng.random() < 0.15:
             N = 100000
         nsrc = rng.choice([1, 1, 2, 2, 3])
-        return {'gseed': rng.randrange(2**62), 'nsrc': nsrc, 'nsteps': rng.choice([1, 2, 3, 4, 6, 8]), 'N': N if nsrc < 3 else 20480,
-                'sample_size': rng.choice([None, None, 1, 5, 100, 200])}
+        sc = {'gseed': rng.randrange(2**62), 'nsrc': nsrc, 'nsteps': rng.choice([1, 2, 3, 4, 6, 8]), 'N': N if nsrc < 3 else 20480,
+              'sample_size': rng.choice([None, None, 1, 5, 100, 200])}
+        r = rng.random()
+        if r < 0.12:
+            sc['head'] = rng.choice([10, 1000])          # the consumer stops reading the last resource after k rows
+        elif r < 0.24:
+            sc['bad_row'] = rng.choice([500, 5000])      # an uncastable value arrives mid-stream and fails the run (validate appended)
+        return sc
 
     def execute(self, sc, ctx):
         if 'steps' not in sc:
@@ -194,6 +240,21 @@ class C06(Prop):
         if v['early'] > C_SLACK:
             ctx.violation('next-source-pulled-early', 'exceeded', '%d rows of a later source were pulled (beyond its inference sample) while an earlier source was still being delivered (row id %r, pulls %r); steps=%s' % (
                 v['early'], v['early_at'][0], v['early_at'][1], json.dumps(sc['steps'])[:700]), early=v['early'], N=N)
+        if sc.get('head'):
+            ctx.probe('consumer-stops-early')
+            if v.get('stopped_at') is not None and v['pulled_end'] - v['stopped_at'] > C_SLACK:
+                ctx.violation('pulled-after-consumer-stopped', 'drain', 'after the consumer stopped reading the last resource (%d rows in), %d more source rows were pulled (total %d of %d); steps=%s' % (
+                    sc['head'], v['pulled_end'] - v['stopped_at'], v['pulled_end'], N * len(sc['sources']), json.dumps(sc['steps'])[:600]), N=N)
+            if v.get('stopped_at') is not None:
+                ctx.nt('head', kinds, [s['kind'] for s in sc['sources']], sc.get('sample_size'))
+        if sc.get('bad_row') is not None:
+            ctx.probe('run-fails-mid-stream')
+            if v.get('failed'):
+                ahead = v['pulled_end'] - (sc['bad_row'] + 1)
+                if ahead > bound:
+                    ctx.violation('lookahead:bound', 'at-failure', 'the run failed at source row %d but %d rows had been pulled by then (%d beyond the failing row, bound %d); steps=%s' % (
+                        sc['bad_row'], v['pulled_end'], ahead, bound, json.dumps(sc['steps'])[:600]), N=N)
+                ctx.nt('bad-row', kinds, sc.get('sample_size'))
         if v['delivered'] >= N // 2:
             ctx.nt(kinds, [s['kind'] for s in sc['sources']], sc.get('sample_size'))
         ctx.count('max_lookahead_seen', 0)
